@@ -83,6 +83,10 @@ def BHJM_magnet_tetrahedron(
     # allocate - try not to generate more arrays
     BHJM = polarization.astype(float)
 
+    # same vertex order for the inside test of all four fields: the decision for a point on a
+    # face must not depend on the field that is asked for
+    vertices = check_chirality(vertices)
+
     if field == "J":
         mask_inside = point_inside(observers, vertices, in_out)
         BHJM[~mask_inside] = 0
@@ -92,8 +96,6 @@ def BHJM_magnet_tetrahedron(
         mask_inside = point_inside(observers, vertices, in_out)
         BHJM[~mask_inside] = 0
         return BHJM / MU0
-
-    vertices = check_chirality(vertices)
 
     tri_vertices = np.concatenate(
         (
